@@ -49,9 +49,12 @@ log = logging.getLogger('chameleon.loader')
 
 def cache(func: _F) -> _F:
     def load(self: Any, *args: Any, **kwargs: Any) -> Any:
-        template = self.registry.get(args)
+        # Arguments passed by keyword (``bind`` passes the template
+        # class that way) are part of the key, too.
+        key = args + tuple(kwargs[name] for name in sorted(kwargs))
+        template = self.registry.get(key)
         if template is None:
-            self.registry[args] = template = func(self, *args, **kwargs)
+            self.registry[key] = template = func(self, *args, **kwargs)
         return template
     return cast('_F', load)
 
